@@ -5,6 +5,11 @@ V = '/verif'
 props = {}
 for l in open(f'{V}/properties.jsonl'):
     p = json.loads(l); props[p['id']] = p
+built = {'C13':'11.2','C17':'11.3','C22':'11.5','C33':'11.6 and 11.12','C01':'11.6','C21':'11.7','C30':'11.8','C25':'11.9','C27':'11.9','C32':'11.10','C06':'11.11','C14':'11.12','C07':'11.13','C08':'11.13','C04':'11.14','C03':'11.15','C26':'11.16','C05':'11.17'}
+def note(c):
+    t = '; '.join(c.get('trusted_base', []))
+    nd = '; '.join(c.get('not_decided', []))
+    return ('Trusted / assumed: ' + t if t else 'Trusted / assumed: see evidence') + ((' || NOT DECIDED by this check: ' + nd) if nd else '')
 checks = []
 claimed = set()
 for f in sorted(glob.glob(f'{V}/props/C*.json')):
@@ -21,9 +26,9 @@ for f in sorted(glob.glob(f'{V}/props/C*.json')):
         'level_claimed': {
             'category': 'proof',
             'text': m.get('level_text', 'Contract obligations generated from the real function bodies are discharged by SMT solvers for all inputs and iterations.'),
-            'design_ref': 'DESIGN.md §6 ' + cid,
+            'design_ref': 'DESIGN.md §6 ' + cid + ((' (as built: §' + built[cid] + ')') if cid in built else ''),
         },
-        'level_note': m.get('level_note', '; '.join(c.get('trusted_base', []))),
+        'level_note': m.get('level_note', note(c)),
         'technique': m.get('technique', 'contract-based deductive verification: weakest-precondition style VC generation over go/ast+go/types of /repo, discharged by z3/cvc5'),
     })
 na = json.load(open(f'{V}/tools/not_applicable.json'))
